@@ -1,24 +1,36 @@
 //! C20 — the shipped test assertions accept exactly equal collections.
 //!
-//! Request:  `ASSERT <eq|unord|kv|grp> <A> | <B>`   answer: `PASS` | `PANIC`
+//! Request:  `ASSERT <eq|unord|kv|grp|maps> <A> | <B>`   answer: `PASS` | `PANIC`
 //!   eq/unord : A = comma-separated ints (empty list = `-`)
 //!   kv       : rows `k:v`
 //!   grp      : rows `k:v.v.v` (empty group = `k:`)
+//!   maps     : rows `k:v` = the sequence of `HashMap::insert` calls that builds each map (a repeated key
+//!              overwrites), compared with `assert_maps_equal`
+//! Request:  `ASSERT size <A> <n>` | `ASSERT contains <A> <x>` | `ASSERT <all|any|none> <pred> <A>`
+//!   pred     : `true` `false` `even` `odd` `neg` `lt:<n>` `eq:<n>` `ne:<n>` (a closed library of closures)
 //! Real side: the real assertion under catch_unwind. Oracle: reference multiset / sequence
 //! equality computed by sorting and counting, independent of model and implementation.
 //!   kv  : passes <=> the two row collections are equal as multisets, for EVERY input (repeated keys
 //!         included; `kv-rejects-equal-multisets-with-repeated-key` was a known finding until the
 //!         `fix:` commit that compares runs of equal keys as multisets, it must not occur any more).
-//!   grp : the property's right-hand side (same multiset of keys, and for every key every group of
-//!         one side is multiset-equal to every group of the other side) implies PASS for every input;
-//!         PASS implies it when the keys of at least one side are pairwise distinct (grouped data);
-//!         for every input PASS implies equal key multisets and equal flattened (key, value) multisets.
+//!   grp : passes <=> the two collections are equal as multisets of groups, a group being a key with a
+//!         multiset of values, for EVERY input (repeated keys included): reference = equality of the
+//!         normal forms (every group's values sorted, then the rows sorted). For grouped data (keys
+//!         pairwise distinct on a side) this is the property's literal right-hand side (same multiset of
+//!         keys and, for every key, multiset-equal groups); the two references are cross-checked there.
+//!         `grp-rejects-equal-multisets-with-repeated-key` was the defect repaired by the second grouped
+//!         `fix:` commit ([(0,[1]),(0,[2])] vs [(0,[2]),(0,[1])] panicked); it must not occur any more.
+//!   maps: passes <=> the two maps have the same entries (reference: last value per key, sorted).
+//!   size / contains / all / any / none: passes <=> len == n / occurrences > 0 / number of satisfying
+//!         elements == len / > 0 / == 0.
 
 use crate::ctx::{Ctx, guarded};
 use ironbeam::testing::{
-    assert_collections_equal, assert_collections_unordered_equal, assert_grouped_kv_equal,
-    assert_kv_collections_equal,
+    assert_all, assert_any, assert_collection_size, assert_collections_equal,
+    assert_collections_unordered_equal, assert_contains, assert_grouped_kv_equal,
+    assert_kv_collections_equal, assert_maps_equal, assert_none,
 };
+use std::collections::HashMap;
 
 fn enc_ints(a: &[i64]) -> String {
     if a.is_empty() { "-".into() } else { a.iter().map(|x| x.to_string()).collect::<Vec<_>>().join(",") }
@@ -98,37 +110,132 @@ fn one_grp(cx: &mut Ctx, a: &[(i64, Vec<i64>)], b: &[(i64, Vec<i64>)]) {
     let flat = |x: &[(i64, Vec<i64>)]| {
         sorted(&x.iter().flat_map(|(k, vs)| vs.iter().map(move |v| (*k, *v))).collect::<Vec<_>>())
     };
-    // the property's right-hand side, literally: same multiset of keys and, for every key, every
-    // group of that key on one side is multiset-equal to every group of that key on the other side
-    let rhs = keys(a) == keys(b)
-        && a.iter().all(|(k, vs)| b.iter().filter(|(k2, _)| k2 == k).all(|(_, ws)| sorted(vs) == sorted(ws)));
-    let grouped = keys_nodup(a) || keys_nodup(b);
-    if grouped && keys_nodup(a) && keys_nodup(b) {
-        // cross-check of the oracle itself on grouped data: rhs == equality of the normal forms
-        let norm = |x: &[(i64, Vec<i64>)]| {
-            let mut v: Vec<(i64, Vec<i64>)> = x.iter().map(|(k, vs)| (*k, sorted(vs))).collect();
-            v.sort();
-            v
-        };
-        if rhs != (norm(a) == norm(b)) {
+    // reference for EVERY input: equal as multisets of groups (key, multiset of values)
+    let norm = |x: &[(i64, Vec<i64>)]| {
+        let mut v: Vec<(i64, Vec<i64>)> = x.iter().map(|(k, vs)| (*k, sorted(vs))).collect();
+        v.sort();
+        v
+    };
+    let want = norm(a) == norm(b);
+    let nodup = keys_nodup(a) || keys_nodup(b);
+    if nodup {
+        // cross-check of the oracle itself on grouped data: the property's right-hand side, literally
+        // (same multiset of keys and, for every key, every group of that key on one side is
+        // multiset-equal to every group of that key on the other side)
+        let rhs = keys(a) == keys(b)
+            && a.iter().all(|(k, vs)| b.iter().filter(|(k2, _)| k2 == k).all(|(_, ws)| sorted(vs) == sorted(ws)));
+        if rhs != want {
             cx.oracle_fail(i, "grp-oracle-inconsistent", "rhs and normal-form equality differ".into());
-        }
-    }
-    // completeness holds for every input (theorem assertGrouped_complete)
-    if rhs && !pass {
-        cx.oracle_fail(i, "grp-rejects-equal", format!("passes={pass}, same keys and per-key multisets={rhs}"));
-    }
-    // soundness of the property's statement: grouped data (keys unique on at least one side)
-    if grouped {
-        if pass && !rhs {
-            cx.oracle_fail(i, "grp-accepts-different-multiplicity", format!("passes={pass}, same keys and per-key multisets={rhs}"));
         }
     } else {
         cx.count("grp:repeated-key-on-both-sides");
+        if pass { cx.count("grp:pass(repeated key on both sides)"); }
+        if pass && a.len() == b.len() {
+            // the path repaired by the fix: groups of a repeated key listed in a different relative order
+            let by_key = |x: &[(i64, Vec<i64>)]| {
+                let mut v: Vec<(i64, Vec<i64>)> = x.iter().map(|(k, vs)| (*k, sorted(vs))).collect();
+                v.sort_by_key(|r| r.0);
+                v
+            };
+            if by_key(a) != by_key(b) { cx.count("grp:pass(equal-key groups in different relative order)"); }
+        }
     }
-    // soundness for every input, repeated keys included (theorems assertGrouped_sound_keys / _flatten)
+    if pass != want {
+        let sig = if pass {
+            "grp-accepts-different-multiplicity"
+        } else if !keys_nodup(a) {
+            "grp-rejects-equal-multisets-with-repeated-key"
+        } else {
+            "grp-rejects-equal"
+        };
+        cx.oracle_fail(i, sig, format!("passes={pass}, equal as multisets of groups={want}"));
+    }
+    // weaker consequences, kept as independent second references (theorems assertGrouped_sound_keys / _flatten)
     if pass && (keys(a) != keys(b) || flat(a) != flat(b)) {
         cx.oracle_fail(i, "grp-accepts-different-rows", format!("passes although keys-equal={} flattened-rows-equal={}", keys(a) == keys(b), flat(a) == flat(b)));
+    }
+}
+
+fn build_map(rows: &[(i64, i64)]) -> HashMap<i64, i64> {
+    let mut m = HashMap::new();
+    for (k, v) in rows { m.insert(*k, *v); }
+    m
+}
+/// reference for a map built by inserts: the LAST value of every key, sorted by key (no hash map)
+fn last_wins(rows: &[(i64, i64)]) -> Vec<(i64, i64)> {
+    let mut out: Vec<(i64, i64)> = vec![];
+    for (k, v) in rows.iter().rev() {
+        if !out.iter().any(|(k2, _)| k2 == k) { out.push((*k, *v)); }
+    }
+    out.sort();
+    out
+}
+fn one_maps(cx: &mut Ctx, a: &[(i64, i64)], b: &[(i64, i64)]) {
+    let (ma, mb) = (build_map(a), build_map(b));
+    let (s, pass) = verdict(guarded(|| assert_maps_equal(&ma, &mb)));
+    let (ra, rb) = (last_wins(a), last_wins(b));
+    let want = ra == rb;
+    let nt = ra.len() >= 2 && rb.len() >= 2;
+    let i = cx.case(format!("ASSERT maps {} | {}", enc_kv(a), enc_kv(b)), s.into(), nt);
+    cx.count(if pass { "maps:pass" } else { "maps:panic" });
+    if ma.len() != ra.len() || mb.len() != rb.len() {
+        cx.oracle_fail(i, "maps-oracle-inconsistent", "reference map size differs from HashMap size".into());
+    }
+    if pass != want {
+        let sig = if pass { "maps-accepts-unequal" } else { "maps-rejects-equal" };
+        cx.oracle_fail(i, sig, format!("passes={pass}, same entries={want}"));
+    }
+}
+fn one_size(cx: &mut Ctx, a: &[i64], n: usize) {
+    let (s, pass) = verdict(guarded(|| assert_collection_size(a, n)));
+    let i = cx.case(format!("ASSERT size {} {n}", enc_ints(a)), s.into(), !a.is_empty());
+    cx.count(if pass { "size:pass" } else { "size:panic" });
+    if pass != (a.iter().count() == n) {
+        cx.oracle_fail(i, "size-iff-length", format!("passes={pass}, len={} n={n}", a.len()));
+    }
+}
+fn one_contains(cx: &mut Ctx, a: &[i64], x: i64) {
+    let (s, pass) = verdict(guarded(|| assert_contains(a, &x)));
+    let i = cx.case(format!("ASSERT contains {} {x}", enc_ints(a)), s.into(), a.len() >= 2);
+    cx.count(if pass { "contains:pass" } else { "contains:panic" });
+    let occ = a.iter().filter(|y| **y == x).count();
+    if pass != (occ > 0) {
+        cx.oracle_fail(i, "contains-iff-member", format!("passes={pass}, occurrences={occ}"));
+    }
+}
+
+/// the closed library of predicates for `assert_all` / `assert_any` / `assert_none`
+#[derive(Clone, Copy, Debug)]
+enum Pred { True, False, Even, Odd, Neg, Lt(i64), Eq(i64), Ne(i64) }
+impl Pred {
+    fn enc(self) -> String {
+        match self {
+            Pred::True => "true".into(), Pred::False => "false".into(), Pred::Even => "even".into(),
+            Pred::Odd => "odd".into(), Pred::Neg => "neg".into(), Pred::Lt(n) => format!("lt:{n}"),
+            Pred::Eq(n) => format!("eq:{n}"), Pred::Ne(n) => format!("ne:{n}"),
+        }
+    }
+    fn eval(self, x: i64) -> bool {
+        match self {
+            Pred::True => true, Pred::False => false, Pred::Even => x % 2 == 0, Pred::Odd => x % 2 != 0,
+            Pred::Neg => x < 0, Pred::Lt(n) => x < n, Pred::Eq(n) => x == n, Pred::Ne(n) => x != n,
+        }
+    }
+}
+fn one_pred(cx: &mut Ctx, which: &str, p: Pred, a: &[i64]) {
+    let r = match which {
+        "all" => guarded(|| assert_all(a, |x| p.eval(*x))),
+        "any" => guarded(|| assert_any(a, |x| p.eval(*x))),
+        _ => guarded(|| assert_none(a, |x| p.eval(*x))),
+    };
+    let (s, pass) = verdict(r);
+    let i = cx.case(format!("ASSERT {which} {} {}", p.enc(), enc_ints(a)), s.into(), a.len() >= 2);
+    cx.count(&format!("{which}:{}", if pass { "pass" } else { "panic" }));
+    // reference: the number of satisfying elements, computed on a sorted copy
+    let sat = sorted(a).into_iter().filter(|x| p.eval(*x)).count();
+    let want = match which { "all" => sat == a.len(), "any" => sat > 0, _ => sat == 0 };
+    if pass != want {
+        cx.oracle_fail(i, &format!("{which}-iff-count"), format!("passes={pass}, satisfying={sat} of {}", a.len()));
     }
 }
 
@@ -160,8 +267,28 @@ pub fn run(cx: &mut Ctx) {
     one_kv(cx, &[(0, 0), (1, 1)], &[(0, 0), (0, 1)]); // partner must have the same key
     one_kv(cx, &[(2, 5), (1, 7), (1, 8)], &[(1, 8), (1, 7), (2, 5)]);
     one_grp(cx, &[(0, vec![1, 2])], &[(0, vec![1, 2, 2])]); // actual group is a proper sub-multiset, same set
-    one_grp(cx, &[(0, vec![1]), (0, vec![2])], &[(0, vec![2]), (0, vec![1])]); // repeated key: rejected (not grouped data)
+    one_grp(cx, &[(0, vec![1]), (0, vec![2])], &[(0, vec![2]), (0, vec![1])]); // repeated key, same groups: rejected before the second grouped fix
     one_grp(cx, &[(0, vec![1]), (0, vec![2])], &[(0, vec![1]), (0, vec![2])]);
+    one_grp(cx, &[(0, vec![1, 2]), (0, vec![])], &[(0, vec![1]), (0, vec![2])]); // same keys, same flattened rows, different groups
+    one_grp(cx, &[(0, vec![1]), (0, vec![1]), (0, vec![2])], &[(0, vec![1]), (0, vec![2]), (0, vec![2])]); // partners are consumed
+    one_grp(cx, &[(0, vec![1, 2]), (0, vec![2, 1]), (1, vec![3])], &[(1, vec![3]), (0, vec![2, 1]), (0, vec![2, 1])]);
+    one_grp(cx, &[(0, vec![1]), (1, vec![2])], &[(0, vec![1]), (0, vec![2])]); // partner must have the same key
+    one_maps(cx, &[(1, 1), (2, 2)], &[(2, 2), (1, 1)]);
+    one_maps(cx, &[(1, 1), (2, 2)], &[(1, 1), (3, 2)]); // same size, expected key missing from actual
+    one_maps(cx, &[(1, 1), (2, 2)], &[(1, 1), (2, 3)]); // same keys, one value differs
+    one_maps(cx, &[(1, 1), (2, 2)], &[(1, 1)]);         // actual has an extra key
+    one_maps(cx, &[(1, 1)], &[(1, 1), (2, 2)]);
+    one_maps(cx, &[(1, 0), (1, 1)], &[(1, 1)]);         // overwritten entry
+    one_size(cx, &[], 0);
+    one_size(cx, &[1, 2, 3], 2);
+    one_contains(cx, &[], 0);
+    one_contains(cx, &[1, 2, 3], 3);
+    one_pred(cx, "all", Pred::Even, &[]);
+    one_pred(cx, "any", Pred::Even, &[]);
+    one_pred(cx, "none", Pred::Even, &[]);
+    one_pred(cx, "all", Pred::Even, &[2, 4, 5]);
+    one_pred(cx, "any", Pred::Even, &[1, 3, 4]);
+    one_pred(cx, "none", Pred::Even, &[1, 3, 4]);
 
     // exhaustive small scope
     let n = cx.budget(4, 5);
@@ -174,7 +301,7 @@ pub fn run(cx: &mut Ctx) {
     }
     cx.exhaustive_blocks.push(format!("eq,unord: all pairs of sequences of length <= {n} over 3 symbols ({} pairs)", seqs.len() * seqs.len()));
     let kv_alpha: Vec<(i64, i64)> = vec![(0, 0), (0, 1), (1, 0), (1, 1)];
-    let kn = cx.budget(3, 4);
+    let kn = cx.budget(4, 5);
     let kvs = all_seqs(&kv_alpha, kn);
     for a in &kvs {
         for b in &kvs {
@@ -182,7 +309,8 @@ pub fn run(cx: &mut Ctx) {
         }
     }
     cx.exhaustive_blocks.push(format!("kv: all pairs of row sequences of length <= {kn} over keys {{0,1}} x values {{0,1}} ({} pairs)", kvs.len() * kvs.len()));
-    let groups = all_seqs(&[0i64, 1], 2);
+    // groups up to length 3 ([0,0,1] vs [0,1,1] sized), one or two rows, unique and repeated keys
+    let groups = all_seqs(&[0i64, 1], 3);
     let mut grp_alpha: Vec<(i64, Vec<i64>)> = vec![];
     for k in 0..2 {
         for g in &groups {
@@ -195,7 +323,35 @@ pub fn run(cx: &mut Ctx) {
             one_grp(cx, a, b);
         }
     }
-    cx.exhaustive_blocks.push(format!("grp: all pairs of grouped sequences of length <= 2 over keys {{0,1}} x groups of length <= 2 over {{0,1}} ({} pairs)", gs.len() * gs.len()));
+    cx.exhaustive_blocks.push(format!("grp: all pairs of grouped sequences of length <= 2 over keys {{0,1}} x groups of length <= 3 over {{0,1}} ({} pairs)", gs.len() * gs.len()));
+    // three rows of one repeated key
+    let rk_alpha: Vec<(i64, Vec<i64>)> = vec![(0, vec![]), (0, vec![1]), (0, vec![2]), (0, vec![1, 2]), (0, vec![2, 1]), (1, vec![1])];
+    let rk = all_seqs(&rk_alpha, 3);
+    for a in &rk {
+        for b in &rk {
+            one_grp(cx, a, b);
+        }
+    }
+    cx.exhaustive_blocks.push(format!("grp: all pairs of grouped sequences of length <= 3 over the rows 0:[] 0:[1] 0:[2] 0:[1,2] 0:[2,1] 1:[1] (repeated keys; {} pairs)", rk.len() * rk.len()));
+    // maps: all pairs of insert sequences of length <= 3 over keys {0,1} x values {0,1}
+    let ms = all_seqs(&kv_alpha, 3);
+    for a in &ms {
+        for b in &ms {
+            one_maps(cx, a, b);
+        }
+    }
+    cx.exhaustive_blocks.push(format!("maps: all pairs of insert sequences of length <= 3 over keys {{0,1}} x values {{0,1}} ({} pairs)", ms.len() * ms.len()));
+    // size / contains / all / any / none: all sequences of length <= 4 over 3 symbols
+    let preds = [Pred::True, Pred::False, Pred::Even, Pred::Odd, Pred::Neg, Pred::Lt(1), Pred::Lt(2), Pred::Eq(0), Pred::Eq(2), Pred::Ne(1), Pred::Eq(7)];
+    let small = all_seqs(&[0i64, 1, 2], 4);
+    for a in &small {
+        for n in 0..=5 { one_size(cx, a, n); }
+        for x in 0..=3 { one_contains(cx, a, x); }
+        for p in preds {
+            for which in ["all", "any", "none"] { one_pred(cx, which, p, a); }
+        }
+    }
+    cx.exhaustive_blocks.push(format!("size (n <= 5), contains (x <= 3), all/any/none ({} predicates): all sequences of length <= 4 over 3 symbols ({} sequences)", preds.len(), small.len()));
 
     // random longer pairs: b is a perturbation of a (shuffle / duplicate-swap / replace / drop)
     let rounds = cx.budget(1500, 30000);
@@ -228,6 +384,39 @@ pub fn run(cx: &mut Ctx) {
         let ka2: Vec<(i64, i64)> = a2.iter().map(|x| (x % 4, x / 4)).collect();
         let kb2: Vec<(i64, i64)> = b2.iter().map(|x| (x % 4, x / 4)).collect();
         one_kv(cx, &ka2, &kb2);
+        // maps from the same two row streams (a repeated key overwrites)
+        one_maps(cx, &ka2, &kb2);
+        one_maps(cx, &ka, &kb);
+        // size / contains / predicates on the perturbed sequence (negative values included)
+        let sh: Vec<i64> = b.iter().map(|x| x - 2).collect();
+        let n = if cx.rng.chance(1, 2) { sh.len() } else { cx.rng.below(32) };
+        one_size(cx, &sh, n);
+        let x = cx.rng.range(-3, dom);
+        one_contains(cx, &sh, x);
+        let p = match cx.rng.below(8) {
+            0 => Pred::True, 1 => Pred::False, 2 => Pred::Even, 3 => Pred::Odd, 4 => Pred::Neg,
+            5 => Pred::Lt(cx.rng.range(-3, dom)), 6 => Pred::Eq(cx.rng.range(-3, dom)), _ => Pred::Ne(cx.rng.range(-3, dom)),
+        };
+        for which in ["all", "any", "none"] { one_pred(cx, which, p, &sh); }
+        // groups of a repeated key in a different relative order, then one value changed in one group
+        if cx.rng.chance(1, 3) {
+            let mut ga2 = group(&a);
+            split_group(cx, &mut ga2);
+            split_group(cx, &mut ga2);
+            let mut gb2 = ga2.clone();
+            for i in (1..gb2.len()).rev() { let j = cx.rng.below(i + 1); gb2.swap(i, j); }
+            for g in gb2.iter_mut() { if cx.rng.chance(1, 2) { g.1.reverse(); } }
+            one_grp(cx, &ga2, &gb2);
+            if !gb2.is_empty() {
+                let i = cx.rng.below(gb2.len());
+                if cx.rng.chance(1, 2) { gb2[i].1.push(cx.rng.range(0, 2)); }
+                else if let Some(j) = (0..gb2.len()).find(|&j| j != i && gb2[j].0 == gb2[i].0) {
+                    // move one value between two groups of the same key: flattened rows stay equal
+                    if let Some(v) = gb2[i].1.pop() { gb2[j].1.push(v); }
+                }
+                one_grp(cx, &ga2, &gb2);
+            }
+        }
     }
 }
 
